@@ -2978,6 +2978,22 @@ define_method(CPPInstance *function, InterrogateType &itype,
     return;
   }
 
+  if ((function->_storage_class & CPPInstance::SC_defaulted) != 0 &&
+      (ftype->_flags & CPPFunctionType::F_constructor) != 0) {
+    // An explicitly defaulted constructor is implicitly deleted if a base
+    // class or member cannot be constructed that way.
+    if ((ftype->_flags & CPPFunctionType::F_copy_constructor) != 0) {
+      if (!struct_type->is_copy_constructible(function->_vis)) {
+        return;
+      }
+    } else if (ftype->_parameters->_parameters.empty() &&
+               (ftype->_flags & CPPFunctionType::F_move_constructor) == 0) {
+      if (!struct_type->is_default_constructible(function->_vis)) {
+        return;
+      }
+    }
+  }
+
   // As a special kludgey extension, we consider a public static method called
   // "get_class_type()" to be marked published, even if it is not.  This
   // allows us to export all of the TypeHandle system stuff without having to
